@@ -45,6 +45,7 @@ const (
 	TypeSlice  ZogType = "slice"
 	TypeStruct ZogType = "struct"
 	TypePtr    ZogType = "ptr"
+	TypeCustom ZogType = "custom"
 )
 
 // Deprecated: This will be removed in the future. Use z.ZogIssueCode instead
